@@ -2,7 +2,7 @@
 """seeded/RESULTS.md from the matrix runs (.build/matrix*.tsv; later files override earlier rows)."""
 import json, glob, os
 rows = {}
-for fn in ["/verif/.build/matrix.tsv", "/verif/.build/matrix_r2.tsv", "/verif/.build/matrix_r3.tsv", "/verif/.build/matrix_r4.tsv", "/verif/.build/matrix_r5a.tsv", "/verif/.build/matrix_r5b.tsv", "/verif/.build/matrix_r5c.tsv", "/verif/.build/matrix_r6a.tsv", "/verif/.build/matrix_r6b.tsv"]:
+for fn in ["/verif/.build/matrix.tsv", "/verif/.build/matrix_r2.tsv", "/verif/.build/matrix_r3.tsv", "/verif/.build/matrix_r4.tsv", "/verif/.build/matrix_r5a.tsv", "/verif/.build/matrix_r5b.tsv", "/verif/.build/matrix_r5c.tsv", "/verif/.build/matrix_r6a.tsv", "/verif/.build/matrix_r6b.tsv", "/verif/.build/matrix_r7a.tsv"]:
     if not os.path.exists(fn):
         continue
     for l in open(fn):
@@ -20,6 +20,8 @@ for name in sorted(rows):
     r = rows[name]
     pid, rc, wall = r[1], r[2], r[3]
     job = r[4] if len(r) > 4 else ""
+    if not job.strip() and rc == "1" and pid == "C07":
+        job = "Kani proof harness (Engine K)"
     try:
         j = json.loads(job.strip())
         job = j.get("job", j.get("harness", ""))
